@@ -188,6 +188,11 @@ func C08(c *core.Ctx) {
 		})
 		c.Floor("R2", n, 7, "handler calls in the dispatcher")
 	}
+	// the bytes cached for replay to a retransmitted request are this response's own (not a buffer
+	// that a later response overwrites): the replay must answer the request it is keyed by
+	if a := getTxAnchors(c, "R2"); a.ok {
+		checkSendCaches(c, "R2", a.rxSend, p.Field(pkgPfcp, "RxTransaction", "msgBuf"), p.Field(pkgPfcp, "RxTransaction", "raddr"), a)
+	}
 	if mainFn := fnOf(c, "R2", pkgPfcp, "PfcpServer", "main"); mainFn != nil {
 		for _, ci := range core.Calls(mainFn, p.Method(pkgPfcp, "PfcpServer", "reqDispacher")) {
 			_, path := core.FieldPath(core.CallArgs(ci)[1])
